@@ -362,6 +362,11 @@ class Lib(object):
             engine.dict_put(st, d, h=z3.Store(h, k, False))
             yield st, res
             return
+        if name in ("add", "discard") and len(args) == 1:
+            # a set of objects modelled as a dict without values: membership only
+            engine.dict_put(st, d, h=z3.Store(h, to_val(args[0]), name == "add"))
+            yield st, None
+            return
         if name == "clear" and not args:
             engine.dict_put(st, d, h=z3.K(Val, z3.BoolVal(False)))
             yield st, None
@@ -829,6 +834,8 @@ class Lib(object):
                 yield st, len(a)
             elif isinstance(a, Obj) and a.kind == "joinlist":
                 yield st, engine.heap_get(st, a, "n")
+            elif isinstance(a, Obj) and a.kind == "vlist":
+                yield st, self.R(engine, st, "vlen", engine.heap_get(st, a, "items"))
             else:
                 raise Unsupported("len(%r)" % (a,))
             return
@@ -1052,6 +1059,19 @@ class Lib(object):
             b = engine.narrow(st, args[0], "bytes", node, "str(x, 'utf8') argument")
             for r in self.call_symmethod(engine, st, SymMethod(b, "decode"), ["utf8"], {}, node):
                 yield r
+            return
+        if f in (list, tuple, set) and len(args) == 1 and isinstance(args[0], Obj) and args[0].kind == "dict" and "member" in self.spec.recs:
+            # list(d) / tuple(d) / set(d): the keys of the dict at this moment - a tuple T (lists are modelled as tuples) with
+            # k in T  <=>  k in d, for every k
+            self.used.add("list(d) of a dict: a sequence holding exactly the dict's keys (forall k: k in it <=> k in d)")
+            m, h = self.dget(engine, st, args[0])
+            T = fresh("keys@L%d" % ln, Val)
+            st.assume(Val.is_VTuple(T))
+            mem = self.spec.recs["member"].z
+            k = z3.Const("q!key", Val)
+            st.assume(z3.ForAll([k], z3.Select(h, k) == mem(k, Val.titems(T)), patterns=[mem(k, Val.titems(T))]))
+            st.assume(z3.ForAll([k], z3.Implies(z3.Select(h, k), mem(k, Val.titems(T))), patterns=[z3.Select(h, k)]))
+            yield st, SVal(T)
             return
         if f in (list, tuple) and len(args) == 1 and isinstance(args[0], Obj) and args[0].kind == "vlist":
             yield st, SVal(Val.VTuple(engine.heap_get(st, args[0], "items").z))
